@@ -47,6 +47,14 @@ def assoc_subscripts(fn):
                             if lhs is child or any(x is n for x in ir.walk(lhs)):
                                 is_write = lhs is child or unwrap(lhs) is child
                         child = p
+                    # `auto& slot = m[k]; slot = v;` : the entry is bound to a reference local that is assigned as a whole
+                    par = parents[-1] if parents else None
+                    if not is_write and st.get("k") == "Decl" and len(st.get("vars", [])) == 1 and st["vars"][0].get("ref") and \
+                            unwrap_all_casts(st["vars"][0].get("init")) is n and not (st["vars"][0].get("t") or "").startswith("const "):
+                        rid = st["vars"][0].get("id")
+                        for lp_, rhs_, node_ in consumption.assignment_targets(ir.stmts(fn["body"])):
+                            if lp_ and len(lp_) == 1 and lp_[0].endswith("#%s" % rid):
+                                is_write = True
                     out.append((n, is_write, g, parents, loops))
     return out
 
@@ -96,6 +104,13 @@ def check(run):
         for st, g, loops in ir.guarded_statements_lc(mg["body"], env):
             if st.get("k") not in ("IfCond", "LoopHead", "SwitchHead") and any(x is node for x in ir.walk(st)):
                 g_here = g
+        # a local that only names the looked-up value (`index_t n = found->second; .. = n;`) is that value
+        for _ in range(3):
+            u_ = unwrap_all_casts(rhs)
+            if isinstance(u_, dict) and u_.get("k") == "Ref" and u_.get("d") == "local" and env.defs.get(path(u_)[0]) is not None:
+                rhs = env.defs[path(u_)[0]]
+            else:
+                break
         safe = None
         why = ""
         has_sub = any(x.get("k") == "OpCall" and x.get("op") == "[]" and ((x.get("callee") or {}).get("cls") or "").startswith(("std::unordered_map<", "std::map<")) for x in ir.walk(rhs))
@@ -150,12 +165,36 @@ def check(run):
                "the index is rewritten only when %s, but the block is written regardless: a block for which that does not hold (e.g. one "
                "that omits the optional index, meaning 0) keeps an index of its source file" % " && ".join(show_f(a) for a in extra))
         txt = show(remaps[0][1])
-        for x in ir.walk(remaps[0][1]):
-            if x.get("k") == "Ref" and x.get("d") == "local":
-                d = env.defs.get(path(x)[0])
-                if d is not None:
-                    txt += " <- " + show(d)
+        seen_ = set()
+        work_ = [remaps[0][1]]
+        while work_ and len(seen_) < 8:
+            e_ = work_.pop(0)
+            for x in ir.walk(e_):
+                if x.get("k") == "Ref" and x.get("d") == "local" and path(x)[0] not in seen_:
+                    seen_.add(path(x)[0])
+                    d = env.defs.get(path(x)[0])
+                    if d is not None:
+                        txt += " <- " + show(d)
+                        work_.append(d)
         ok = "get_block_parameters_index()" in txt
+        if not ok:
+            # a local that some call receives as an argument may be an output parameter of that call: where its value comes
+            # from is then inside the callee
+            outs = set()
+            for x in ir.walk(remaps[0][1]):
+                if x.get("k") == "Ref" and x.get("d") == "local":
+                    for c in ir.calls_in(mg["body"]):
+                        if any(isinstance(unwrap(a), dict) and unwrap(a).get("k") == "Ref" and unwrap(a).get("id") == x.get("id") for a in c.get("args", [])) \
+                                and (c.get("callee") or {}).get("inrepo"):
+                            outs.add(callee_name(c))
+            if outs:
+                ok = None
+                txt += " (filled in by %s, which is not expanded)" % "/".join(sorted(outs))
+            # a local with several stores: which one reaches the remap is a question of paths, not decided here
+            multi = [lp_ for lp_, r_, n_ in consumption.assignment_targets(ir.stmts(mg["body"])) if lp_ and len(lp_) == 1 and lp_[0] in seen_]
+            if multi and ok is False:
+                ok = None
+                txt += " (%s is assigned in several places)" % multi[0][0].split("#")[0][2:]
         run.ob("R18.2", "cdns_merge:remap-keyed-by-old-index", ok, mg, remaps[0][2].get("l", 0),
                "the new index is looked up by the block's own old index" if ok else "remapping is keyed by %s" % txt)
     run.floor("R18.2", 3, "remap obligations")
@@ -204,6 +243,7 @@ def check(run):
             run.ob("R18.3", "cdns_merge:reference-from-first-readable", None, mg, p1.get("l", 0), "no `preamble = reader.m_file_preamble` found in the first pass")
         else:
             lp_, node_, g = ref_assign
+            order_ = {id(x): i for i, x in enumerate(ir.walk(mg["body"]))}
             flags = [a for a in conjuncts(g) if a[0] == "nz" and str(a[1]).startswith("l:")]
             positional = [a for a in conjuncts(g) if a[0] == "cmp" or (a[0] == "not" and a[1][0] == "nz" and not str(a[1][1]).startswith("l:"))]
             lowered = False
@@ -211,7 +251,9 @@ def check(run):
                 if st.get("k") in ("IfCond", "LoopHead", "SwitchHead"):
                     continue
                 for lp2, rhs2, node2 in consumption.assignment_targets([st]):
-                    if flags and lp2 == (str(flags[0][1]),) and const_value(rhs2) in (0, False) and g2 == g:
+                    if flags and lp2 == (str(flags[0][1]),) and const_value(rhs2) in (0, False) and \
+                            (g2 == g or (order_[id(node2)] > order_[id(node_)] and all(a in conjuncts(g) for a in conjuncts(g2) if a != ("T",)))):
+                        # in the same place, or later on every path that took the reference (its guard is implied)
                         lowered = True
             okf = len(flags) == 1 and lowered and not [a for a in conjuncts(g) if a[0] == "cmp"]
             run.ob("R18.3", "cdns_merge:reference-from-first-readable", okf, mg, node_.get("l", 0),
